@@ -184,24 +184,26 @@ def le32 (n : Nat) : Bytes := [n % 256, n / 256 % 256, n / 65536 % 256, n / 1677
 /-- `binaryDocs.B = AppendUint32(binaryDocs.B, len(doc)); binaryDocs.B = append(binaryDocs.B, doc...)` -/
 def appendDoc (payload d : Bytes) : Bytes := payload ++ le32 d.length ++ d
 
-/-- the part of a document's (parent) `frac.MetaData` the property talks about: the MID of its ID and `Size`;
-tokens, the random RID and the size-0 metas of nested fields are outside the model -/
+/-- `frac.MetaData`: the ID (`MID`, `RID`), `Size` and the tokens as (key, value) byte strings -/
 structure Meta where
   mid : Nat
+  rid : Nat
   size : Nat
+  tokens : List (Bytes × Bytes)
   deriving Repr, DecidableEq
 
 structure St where
   total : Nat
   docs : Bytes          -- binaryDocs.B
-  metas : List Meta     -- binaryMetas.B, one parent meta per document
+  metas : List Meta     -- binaryMetas.B: per document its parent meta followed by the metas of nested fields
   deriving Repr, DecidableEq
 
 def St.init : St := ⟨0, [], []⟩
 
-/-- `mk d` = the meta `proc.Process` produces for document `d` (ID time by the time rule, `Size = len(doc)`) -/
-def St.push (mk : Bytes → Meta) (st : St) (d : Bytes) : St :=
-  ⟨st.total + 1, appendDoc st.docs d, st.metas ++ [mk d]⟩
+/-- `mk d` = the metas `proc.Process` returns for document `d` (`p.indexer.Metas()`: the parent meta - ID time by
+the time rule, `Size = len(doc)`, tokens - then one `Size = 0` meta per element of a nested field) -/
+def St.push (mk : Bytes → List Meta) (st : St) (d : Bytes) : St :=
+  ⟨st.total + 1, appendDoc st.docs d, st.metas ++ mk d⟩
 
 /-- result of `processDocsToCompressor`: `(total, err)` with the buffers -/
 inductive PR
@@ -210,7 +212,7 @@ inductive PR
   deriving Repr, DecidableEq
 
 /-- the `for { readNext(); proc.Process(); append }` loop of `processDocsToCompressor` -/
-def processDocs (E : Env) (checkN : Nat) (kind : Bytes → Kind) (mk : Bytes → Meta) : Nat → Nat → Bytes → St → PR
+def processDocs (E : Env) (checkN : Nat) (kind : Bytes → Kind) (mk : Bytes → List Meta) : Nat → Nat → Bytes → St → PR
   | 0, _, _, _ => .err .fuel
   | f + 1, n, s, st =>
     match readDoc E checkN n s with
@@ -235,7 +237,7 @@ structure Result where
   deriving Repr, DecidableEq
 
 /-- `Ingestor.ProcessDocuments` (rate limiting aside): nothing is stored on error or for an empty bulk -/
-def processDocuments (E : Env) (checkN : Nat) (kind : Bytes → Kind) (mk : Bytes → Meta) (storeOk : Bool)
+def processDocuments (E : Env) (checkN : Nat) (kind : Bytes → Kind) (mk : Bytes → List Meta) (storeOk : Bool)
     (body : Bytes) : Result :=
   match processDocs E checkN kind mk (body.length + 1) 0 body St.init with
   | .err e => ⟨.error e, none⟩
